@@ -164,9 +164,14 @@ func applyCommon(o buildOpts, def lexer.Definition, opts []participle.Option) []
 	}
 	if o.mapped {
 		opts = append(opts, participle.Map(func(t lexer.Token) (lexer.Token, error) {
-			// a pure, deterministic mapper over every token
+			// a pure, deterministic mapper over every token; it does not commute with the per-type
+			// mappers (Upper turns "y" into "Y", which this one leaves alone), so the order in which
+			// participle applies them shows in the result
 			if len(t.Value) > 0 && t.Value[0] == '\x01' {
 				t.Value = t.Value[1:]
+			}
+			if t.Value == "y" {
+				t.Value = "yy"
 			}
 			return t, nil
 		}))
